@@ -31,7 +31,7 @@ RULE = ('read cases: byte streams assembled from valid lines of one record type,
         'sequences and between CR and LF); wr cases: records written with Writer (bytes compared), re-terminated per line, '
         'read back; records() and into_records() must agree and the iterator must stay ended; skiprun: 10^5 (quick) / 10^6 '
         '(thorough) consecutive skipped lines on a 256 KiB stack; non-trivial = a skipped line, a CRLF, a malformed line and '
-        'fragments shorter than a line; distinct by case text')
+        'fragments shorter than a line; a few lines longer than the reader buffer (8 KiB .. 128 KiB); distinct by case text')
 UNIQUE_NOTE = 'reader_refines: the item sequence is a function of the byte stream and the prefix'
 EXHAUSTIVE = {}
 PREFIXES = [None, None, b'#', b'track', '§'.encode(), b'chr']
@@ -44,6 +44,11 @@ def gen(rng, tier):
     for k in range(n):
         t = rng.choice(T.TYPES)
         recs = [T.rand_record(rng, t) for _ in range(rng.randint(0, 6))]
+        if recs and rng.random() < (0.03 if tier == 'quick' else 0.008):
+            # a line longer than the reader's buffer (8 KiB by default; also 64 KiB and 128 KiB variants): chromosome name of
+            # 8185..8200, 9000, 66000 or 131080 bytes
+            j = rng.randrange(len(recs))
+            recs[j] = list(recs[j]); recs[j][0] = sx.hexs(b'L' * rng.choice([8185, 8191, 8192, 8193, 8200, 9000, 66000, 131080]))
         specs.append((t, recs))
     allbits = [b for t, rs in specs for r in rs for b in T.record_floats(t, r)] + [T.NEG_ONE]
     ft, _ = T.float_tables(allbits, [])
